@@ -279,6 +279,13 @@ namespace verif {
         return buf;
     }
 
+    // usable in a member initializer
+    inline bool evt(const char* ev, const std::string& fields) {
+        if (active())
+            emit(ev, fields);
+        return true;
+    }
+
     // measured: is this mutex currently held by somebody (possibly by us)?
     template<class M>
     inline bool held(M& m) {
